@@ -284,6 +284,13 @@ func (cf *chanFn) combinatorIssues() []sideIssue {
 			if ab == nil || gb == nil || !((ab == gb && ai < gi) || (ab != gb && sp.g.dominates(ab, gb))) {
 				out = append(out, cf.issue(add.n, "add-not-before-go", "T3: Add(1) does not precede the go statement of the forwarder: the forwarder can call Done before Add (negative WaitGroup counter) or Wait can pass before it is counted"))
 			}
+			// every counted forwarder is started: from Add no path comes back to Add, or reaches Wait, without passing the go statement
+			if ab != nil && gb != nil && ab != gb {
+				around := sp.g.reachable(ab.Succs, func(b *cfg.Block) bool { return b == gb })
+				if around[ab] || (wb != nil && sp == c.f && around[wb]) {
+					out = append(out, cf.issue(add.n, "add-without-spawn", "T3: after Add(1) a path reaches the next Add or the Wait without starting the forwarder that calls Done (for example a `continue` for an input that is skipped): the counter never returns to zero, Wait blocks for ever and the output is never closed"))
+				}
+			}
 			if wb != nil && gb != nil && sp == c.f && c.f.g.reachable(wb.Succs, nil)[gb] {
 				out = append(out, cf.issue(s.f.goSt, "spawn-after-wait", "T3: a forwarder can be spawned after Wait"))
 			}
